@@ -663,6 +663,38 @@ func runC10(c *Ctx) {
 	}
 	c.R.Set("race_reports_in_z80", int64(nTarget))
 	c.R.Set("race_reports_total", int64(len(reports)))
+	// requests built by the public constructors are independent values: a host may edit the
+	// Data of its own request in place (a device with a programmable vector register) or
+	// append to it; what a later constructor call returns must not depend on that
+	{
+		var ctorN int64
+		for v := 0; v < 256; v++ {
+			a := z80.IM2Interrupt(uint8(v))
+			if len(a.Data) > 0 {
+				a.Data[0] ^= 0xff
+				a.Data = append(a.Data, 0xee, 0xee, 0xee)
+			}
+			b := z80.IM2Interrupt(uint8(v))
+			x := z80.IM0Interrupt(uint8(v), 0x34, 0x12)
+			for i := range x.Data {
+				x.Data[i] ^= 0xff
+			}
+			x.Data = append(x.Data, 0xee)
+			y := z80.IM0Interrupt(uint8(v), 0x34, 0x12)
+			n1, n2 := z80.NMIInterrupt(), z80.NMIInterrupt()
+			n1.Type, n1.Data = z80.IMType, append(n1.Data, 0xff)
+			ctorN += 3
+			if len(b.Data) != 1 || b.Data[0] != uint8(v) || b.Type != z80.IMType ||
+				len(y.Data) != 3 || y.Data[0] != uint8(v) || y.Data[1] != 0x34 || y.Data[2] != 0x12 ||
+				n2.Type != z80.NMIType || len(n2.Data) != 0 || n1 == n2 || a == b {
+				c.R.Violation("C10/requests-share-storage", map[string]interface{}{
+					"what":   "after the host edited (in place) and appended to the Data of a request it had built, a later call of the same constructor returned a request with other contents: requests share storage process-wide",
+					"vector": h8(uint8(v)), "IM2Interrupt_data": HexBytes(b.Data), "IM0Interrupt_data": HexBytes(y.Data), "NMI_type": int(n2.Type)})
+				break
+			}
+		}
+		c.R.Set("constructor_independence_checks", ctorN)
+	}
 	// host-owned request objects (cases where the device re-assigns ONE object per kind)
 	c10Owned.Range(func(k, _ interface{}) bool {
 		c.R.Violation("C10/host-owned request object modified", map[string]interface{}{
